@@ -2,6 +2,10 @@
 
 using namespace mfuse;
 
+#ifdef MORFUSE_VERIF
+uinttime_t (*mfuse::verif::now_ms)() = nullptr;
+#endif
+
 TimeManager::TimeManager()
 {
     Reset();
@@ -9,6 +13,16 @@ TimeManager::TimeManager()
 
 uinttime_t TimeManager::Frame()
 {
+#ifdef MORFUSE_VERIF
+    if (verif::now_ms)
+    {
+        const uinttime_t now = verif::now_ms();
+        deltaTime = now - verifLast;
+        scaledTime += deltaTime;
+        verifLast = now;
+        return deltaTime;
+    }
+#endif
     using namespace std::chrono;
 
     time_point<steady_clock> clockTime = steady_clock::now();
@@ -24,6 +38,16 @@ uinttime_t TimeManager::Frame()
 
 uinttime_t TimeManager::Frame(float timeScale)
 {
+#ifdef MORFUSE_VERIF
+    if (verif::now_ms)
+    {
+        const uinttime_t now = verif::now_ms();
+        deltaTime = now - verifLast;
+        scaledTime += uinttime_t(deltaTime * timeScale);
+        verifLast = now;
+        return deltaTime;
+    }
+#endif
     using namespace std::chrono;
 
     time_point<steady_clock> clockTime = steady_clock::now();
@@ -49,6 +73,12 @@ uinttime_t TimeManager::GetScaledTime() const
 
 uinttime_t TimeManager::GetTime() const
 {
+#ifdef MORFUSE_VERIF
+    if (verif::now_ms)
+    {
+        return verif::now_ms() - verifStart;
+    }
+#endif
     using namespace std::chrono;
 
     time_point<steady_clock> clockTime = steady_clock::now();
@@ -57,6 +87,10 @@ uinttime_t TimeManager::GetTime() const
 
 void TimeManager::Reset()
 {
+#ifdef MORFUSE_VERIF
+    verifStart = verif::now_ms ? verif::now_ms() : 0;
+    verifLast = verifStart;
+#endif
     startTime = std::chrono::steady_clock::now();
     lastClockTime = startTime;
     scaledTime = 0;
